@@ -316,6 +316,29 @@ pub fn run(tier: Tier) -> i32 {
         });
         acc.merge(acc_same);
     }
+    // capitals whose lower case has another byte length (one grows, a later one shrinks: offsets computed on a
+    // lower-cased copy of the whole text drift in between): one in the first part, one at the end of the second
+    for l in langs::ALL {
+        let lang = l.facade();
+        let c = vocab::cls(l);
+        for x in ["\u{130}", "\u{23a}", "\u{23e}", "\u{130}\u{130}"] {
+            for y in ["\u{1e9e}", "\u{212a}", "\u{212b}", "\u{1e9e}\u{1e9e}"] {
+                for s in SEPARATORS {
+                    for &t in &[0.0, 10.0] {
+                        acc.states += 1;
+                        acc.traces += 1;
+                        let a = format!("{x}xyzzy {} plugh", c.unit);
+                        let b = format!("{} {} plugh{y}", c.tens, c.unit);
+                        let r = |p: &str| guard(|| replace_numbers_in_text(p, &lang, t)).unwrap_or_else(|e| e);
+                        let (got, want) = (r(&format!("{a}{s}{b}")), format!("{}{s}{}", r(&a), r(&b)));
+                        if got != want {
+                            ctx.report(&mut acc, Violation { lang: l.code().into(), entry: "replace_text".into(), input: format!("{a}{s}{b}"), threshold: Some(t), clause: "rewrite(A S B, t) = rewrite(A, t) S rewrite(B, t)".into(), expected: want, observed: got });
+                        }
+                    }
+                }
+            }
+        }
+    }
     // second clause: punctuation between two spelled numbers keeps them apart
     let reps: [u64; 30] = [0, 1, 2, 5, 9, 10, 11, 12, 16, 20, 21, 22, 30, 70, 71, 80, 81, 90, 99, 100, 101, 110, 200, 1000, 1001, 2000, 21000, 100000, 1000000, 2000021];
     for l in langs::ALL {
@@ -392,7 +415,7 @@ pub fn run(tier: Tier) -> i32 {
     let cov = json!({
         "exhaustive": true,
         "rule": "all ordered pairs (A,B) of phrases of <= k symbols over the context alphabet x 2 strong separators x thresholds {0,10}, differential: rewrite(A S B) vs rewrite(A) S rewrite(B); all pairs of 30 representative numbers x 14 punctuation strings at threshold 0; non-trivial = pairs where A is changed by rewriting, plus all punctuation cases",
-        "bounds": {"alphabet": n, "phrase_depth": k, "phrases_per_language": per_lang.iter().map(|(l, p)| json!({l.code(): p.len()})).collect::<Vec<_>>(), "separators": SEPARATORS, "punctuation": PUNCT, "edge_decorations": {"prefix_of_B": PRE, "suffix_of_A": SUF, "phrase_depth": k_e}, "long_A_filler_words_up_to": nmax, "all_number_pairs_up_to": pair_max, "same_word_in_both_parts": "every number-related word of the language: 4 first parts x 6 second parts x 2 separators x thresholds {0,10}", "odd_tokens_ending_A": ODD},
+        "bounds": {"alphabet": n, "phrase_depth": k, "phrases_per_language": per_lang.iter().map(|(l, p)| json!({l.code(): p.len()})).collect::<Vec<_>>(), "separators": SEPARATORS, "punctuation": PUNCT, "edge_decorations": {"prefix_of_B": PRE, "suffix_of_A": SUF, "phrase_depth": k_e}, "long_A_filler_words_up_to": nmax, "all_number_pairs_up_to": pair_max, "length_changing_capitals": "4 growing (U+0130, U+023A, U+023E) in the first part x 4 shrinking (U+1E9E, Kelvin, Angstrom) at the end of the second", "same_word_in_both_parts": "every number-related word of the language: 4 first parts x 6 second parts x 2 separators x thresholds {0,10}", "odd_tokens_ending_A": ODD},
     });
     ctx.finish(acc, cov, vec!["hyphen and apostrophe adjoining letters are word-forming and are not used as separating punctuation".into()])
 }
